@@ -3,6 +3,7 @@ CONSTANTS
   Accounts = {"a1", "a2", "a3", "a4", "a5"}
   Denoms = {"d1", "d2", "d3"}
   CoinLists = {}
+  InitLists = {}
   MetaDenoms = {}
   MetaVals = {}
   Cap = 0
